@@ -11,5 +11,6 @@ def run(prog, rep, tier):
                        "layout); these depend on libdw results for the input.")
     rep.assumptions.append("DWARF 5 section 7.7.1 operand table as transcribed in rules/r_tables.py (OP_TABLE); size+block operands count as one value")
     apply(rep, "X1", "operand decoding covers every DW_OP of dwarf.h", r_tables.x1(prog), 150)
+    apply(rep, "U2", "seen-lists that are binary-searched are kept sorted", r_tables.u2(prog), 2)
     apply(rep, "X2", "?OP_x scans all operations of an element", r_tables.x2(prog), 1)
     maybe_mutants("C17", rep, tier)
